@@ -28,7 +28,7 @@ Qed.
 (* ------------------------------------------------------------------ anchoring *)
 Definition anchored (r : str) : Prop := exists body, r = [94] ++ body ++ [36].
 
-Lemma vrle2re_anchored out e stripped tagged fs r : vrle2re out e stripped tagged fs = Ok r -> anchored r.
+Lemma vrle2re_anchored out full e stripped tagged fs r : vrle2re out full e stripped tagged fs = Ok r -> anchored r.
 Proof.
   unfold vrle2re. destruct (mapM _ fs) as [parts|err]; cbn [bind]; [|discriminate].
   cbv zeta. set (ws := if stripped then _ else _). intro H. injection H as <-.
@@ -66,7 +66,7 @@ Proof.
   set (rles := map (rle_coarse ct e) (ex_strings ex)).
   destruct (mapM _ (to_vrles _)) as [refined|err] eqn:Eref; cbn [bind]; [|discriminate].
   set (m := match refined with [_] => refined | _ => isort len_leb refined end).
-  destruct (mapM (vrle2re false e stripped (o_tag o)) m) as [rx|err] eqn:Erx; cbn [bind]; [|discriminate].
+  destruct (mapM (vrle2re false (o_full_escape o) e stripped (o_tag o)) m) as [rx|err] eqn:Erx; cbn [bind]; [|discriminate].
   intro H. inversion H; subst merged rex. clear H.
   assert (Hm : length m = length refined).
   { subst m. destruct refined as [|a [|b l]]; [reflexivity|reflexivity|apply isort_length]. }
@@ -93,26 +93,26 @@ Proof. reflexivity. Qed.
 Theorem batch_fragments_tag_independent ct o e stripped gt ex t merged rex :
   batch_extract ct o e stripped gt ex = Ok (merged, rex) ->
   exists rex', batch_extract ct (with_tag o t) e stripped gt ex = Ok (merged, rex') \/
-               (exists err, mapM (vrle2re false e stripped t) merged = Err err).
+               (exists err, mapM (vrle2re false (o_full_escape o) e stripped t) merged = Err err).
 Proof.
   unfold batch_extract.
   change (mapM (refine_vrle ct (with_tag o t) e stripped gt (ex_strings ex) (map (rle_coarse ct e) (ex_strings ex))))
     with (mapM (refine_vrle ct o e stripped gt (ex_strings ex) (map (rle_coarse ct e) (ex_strings ex)))).
   destruct (mapM _ (to_vrles _)) as [refined|err] eqn:Eref; cbn [bind]; [|discriminate].
   set (m := match refined with [_] => refined | _ => isort len_leb refined end).
-  destruct (mapM (vrle2re false e stripped (o_tag o)) m) as [rx|err] eqn:Erx; cbn [bind]; [|discriminate].
-  intro H. inversion H; subst merged rex. clear H. cbn [o_tag with_tag].
-  destruct (mapM (vrle2re false e stripped t) m) as [rx'|err'] eqn:Erx'; cbn [bind].
+  destruct (mapM (vrle2re false (o_full_escape o) e stripped (o_tag o)) m) as [rx|err] eqn:Erx; cbn [bind]; [|discriminate].
+  intro H. inversion H; subst merged rex. clear H. cbn [o_tag o_full_escape with_tag].
+  destruct (mapM (vrle2re false (o_full_escape o) e stripped t) m) as [rx'|err'] eqn:Erx'; cbn [bind].
   - exists rx'. left. reflexivity.
   - exists []. right. exists err'. reflexivity.
 Qed.
 
 (* a tagged fragment is the untagged one inside capture_group (fixed fragments are never wrapped) *)
-Theorem fragment_tag_only_wraps out e f r :
-  fragment2re out e false f = Ok r ->
-  fragment2re out e true f = Ok (if f_fixed f then r else capture_group r).
+Theorem fragment_tag_only_wraps out full e f r :
+  fragment2re out full e false f = Ok r ->
+  fragment2re out full e true f = Ok (if f_fixed f then r else capture_group r).
 Proof.
-  unfold fragment2re. destruct (if f_fixed f then _ else _) as [regex|err]; cbn [bind]; [|discriminate].
+  unfold fragment2re. destruct (atom_text out full e (f_atom f)) as [regex|err]; cbn [bind]; [|discriminate].
   intro H. inversion H. destruct (f_fixed f); reflexivity.
 Qed.
 
